@@ -373,3 +373,122 @@ func vfC15SubVsLastClose(buf int, twoTypes bool) (established bool, cls string, 
 	}
 	return established, "", fmt.Sprintf("S2 received %v", recv)
 }
+
+// TestVerifC15WildcardJoinVsLeave: a wildcard Subscribe that has announced itself (nSinks) but not yet
+// attached, overlapped by the Close of another wildcard subscription whose locked section runs in between.
+// Order forced with the hook "w.rlock" (an emit parked holding the wildcard read lock) and the RWMutex's own
+// writer queue; afterwards every event emitted must reach the new subscription.
+func TestVerifC15WildcardJoinVsLeave(t *testing.T) {
+	res := vfh.NewResult()
+	defer func() {
+		if err := res.Write(); err != nil {
+			t.Fatal(err)
+		}
+	}()
+	res.Rule = "one case = one gate-driven scenario: Emit parked holding the wildcard read lock; wildcard sub A closes (queued for the write lock); wildcard sub B subscribes (announced, queued behind A); gate released; later events must reach B; non-trivial = both writers were queued before the gate opened"
+	for attempt := 0; attempt < 4; attempt++ {
+		established, cls, detail := vfC15WildcardJoinVsLeave(attempt)
+		res.Count(1, 6)
+		res.Case(fmt.Sprintf("a%d-established-%v", attempt, established))
+		if attempt == 0 {
+			res.Sample(map[string]any{"scenario": "E.Emit parked at w.rlock; A.Close queued; B=Subscribe(*) queued behind A; released; Emit x3; B must receive all three", "outcome": detail})
+		}
+		if cls != "" {
+			res.AddMismatch(vfh.Mismatch{Class: cls, Walk: -1, Step: attempt, What: detail})
+			return
+		}
+	}
+}
+
+func vfC15WildcardJoinVsLeave(attempt int) (established bool, cls string, detail string) {
+	b := NewBus().(*basicBus)
+	em, err := b.Emitter(new(vfC15EvB))
+	if err != nil {
+		panic(err)
+	}
+	a, err := b.Subscribe(event.WildcardSubscription, BufSize(16))
+	if err != nil {
+		panic(err)
+	}
+	w := b.wildcard
+	gate := make(chan struct{})
+	atGate := make(chan struct{})
+	var gated atomic.Bool
+	VerifHook = func(ev string, typ reflect.Type, ch any, evt any) {
+		if ev == "w.rlock" && gated.CompareAndSwap(false, true) {
+			close(atGate)
+			<-gate // the emitter holds the wildcard read lock here
+		}
+	}
+	defer func() { VerifHook = nil }()
+	fin := make(chan string, 4)
+	go func() { em.Emit(vfC15EvB{E: "e3", N: 1}); fin <- "emit" }()
+	select {
+	case <-atGate:
+	case <-time.After(5 * time.Second):
+		close(gate)
+		return false, "", "Emit never reached the gate"
+	}
+	go func() { a.Close(); fin <- "close" }()
+	// A's removeSink is queued for the write lock once new readers are refused
+	queuedA := false
+	for i := 0; i < 3000 && !queuedA; i++ {
+		if w.TryRLock() {
+			w.RUnlock()
+			time.Sleep(time.Millisecond)
+		} else {
+			queuedA = true
+		}
+	}
+	var bsub event.Subscription
+	go func() {
+		var err error
+		bsub, err = b.Subscribe(event.WildcardSubscription, BufSize(16))
+		if err != nil {
+			panic(err)
+		}
+		fin <- "subscribe"
+	}()
+	// B has announced itself when the counter is back at one (A took itself off before queueing)
+	announced := false
+	for i := 0; i < 3000 && !announced; i++ {
+		if w.nSinks.Load() >= 1 {
+			announced = true
+		} else {
+			time.Sleep(time.Millisecond)
+		}
+	}
+	time.Sleep(5 * time.Millisecond)
+	established = queuedA && announced
+	close(gate)
+	got := map[string]bool{}
+	deadline := time.After(10 * time.Second)
+	for len(got) < 3 {
+		select {
+		case x := <-fin:
+			got[x] = true
+		case <-deadline:
+			return established, "stall-wildcard-join-vs-leave", fmt.Sprintf("after the gate opened, finished only %v", got)
+		}
+	}
+	for n := 2; n <= 4; n++ {
+		em.Emit(vfC15EvB{E: "e3", N: n})
+	}
+	var recv []int
+	for empty := false; !empty; {
+		select {
+		case ev := <-bsub.Out():
+			recv = append(recv, ev.(vfC15EvB).N)
+		default:
+			empty = true
+		}
+	}
+	em.Close()
+	bsub.Close()
+	// (event 1 was in flight while B subscribed: B may or may not have got it)
+	want := map[string]bool{"[2 3 4]": true, "[1 2 3 4]": true}
+	if !want[fmt.Sprint(recv)] {
+		return established, "lost-event", fmt.Sprintf("B = Subscribe(*) returned, then e3#2..#4 were emitted (every Emit returned), but B received %v (its Subscribe overlapped the Close of another wildcard subscription; established=%v)", recv, established)
+	}
+	return established, "", fmt.Sprintf("B received %v", recv)
+}
